@@ -27,12 +27,16 @@ type topo struct {
 	// Answerable: an ideal resolver with unlimited budget finds an answer.
 	Answerable bool
 	Servers    int
+	// Collide: same-tag DNSKEY candidates per signature in the padded zone (manysig variant 2)
+	Collide int
+	// Pad: bad RRSIGs in front of every genuine one in the padded zone
+	Pad int
 }
 
 var families = []string{"cname", "dname", "nscycle", "deep", "lame", "hugens", "manysig"}
 
 // variants per family (see buildTopo)
-var familyVariants = map[string]int{"cname": 2, "dname": 2, "nscycle": 2, "deep": 2, "lame": 5, "hugens": 3, "manysig": 2}
+var familyVariants = map[string]int{"cname": 2, "dname": 2, "nscycle": 2, "deep": 2, "lame": 5, "hugens": 3, "manysig": 3}
 
 func buildTopo(family string, n, variant int, signed bool) *topo {
 	w := l3.NewWorld(signed)
@@ -226,6 +230,14 @@ func buildTopo(family string, n, variant int, signed bool) *topo {
 				s.AddRR(l3.NewKey("sig.test.", 256, dns.ECDSAP256SHA256).Key)
 			}
 		}
+		if variant == 2 {
+			// many signatures × colliding key tags: three more DNSKEYs share the signing key's tag,
+			// so every one of the n bad RRSIGs has four candidates
+			for _, k := range sameTagKeys(s.Keys[0].Key, 3) {
+				s.AddRR(k)
+			}
+			t.Collide = 4
+		}
 		srv := s.Servers[0]
 		srv.SetBehaviour(l3.Behaviour{Tamper: func(q dns.Question, honest *dns.Msg, tcp bool) *dns.Msg {
 			honest.Answer = padSigs(honest.Answer, n)
@@ -235,6 +247,7 @@ func buildTopo(family string, n, variant int, signed bool) *topo {
 		t.QName = "www.sig.test."
 		t.Answerable = true
 		t.Honest = false
+		t.Pad = n
 	default:
 		panic("unknown family " + family)
 	}
